@@ -40,7 +40,7 @@ RULE = (
     "chain of 11 locals, min_utxo arity, index on a local, a broken second transaction, two transactions with one "
     "name); a malformed-literal sweep (an odd-length hex literal at every literal position of 6 (thorough: 40) programs "
     "in turn, metadata and signers included); 80% semantic mutations (1-2 of 16 kinds) of generated core programs, a quarter of them with two "
-    "transactions, a third printed with random layout; 20% token-level mutations of examples/*.tx3 and of the coverage-driven corpus (frontp::extra_corpus); each corpus program as it stands; a third of the transactions carry capitalised names (Transfer, payBack, T, swap_Now). Non-trivial = "
+    "transactions, a third printed with random layout; 20% token-level mutations of examples/*.tx3 and of the coverage-driven corpus (frontp::extra_corpus); each corpus program as it stands; the mutation cross-kind-name (a parameter spelled like a party or an environment key up to case); a third of the transactions carry capitalised names (Transfer, payBack, T, swap_Now). Non-trivial = "
     "the text parses; distinct = distinct source text"
 )
 ASSUMPTIONS = ["name resolution is abstracted as an arbitrary report in the theorems",
